@@ -88,8 +88,40 @@ def opHandle (l : Line) : Except String String := do
     | some b, some (.scrape _) => if Bytes.toNatBE (b.take 4) == 3 then "logicerr" else "scrape"
   pure (showOut tx r.out ++ " " ++ showCall probes r.call ++ s!" after={b01 r.after}" ++ "\t" ++ tag)
 
+/-- `udp.echo …`: the logic answers with a function of the request (interval from `left`, counts from
+`downloaded`/`uploaded`, the announcer as the only peer); only the datagram is reported -/
+def opEcho (l : Line) : Except String String := do
+  let pkt ← l.bytes "pkt"
+  let src ← l.bytes "src"
+  let now ← l.int "now"
+  let skew ← l.int "skew"
+  let tag ← l.bytes "tag"
+  let gtag ← l.bytes "gtag"
+  let lowmap ← DHttpParse.parseMap (l.get "lowmap")
+  let vc := Gen.Validate.UDP.validate { PrivateKey_empty := false, MaxNumWant := (← l.nat "maxnw"), DefaultNumWant := (← l.nat "defnw"),
+                                         MaxScrapeInfoHashes := (← l.nat "maxscrape") }
+  let opts : ParseOpts := { allowIPSpoofing := false, realIPHeaderSet := false, maxNumWant := vc.MaxNumWant.toNat,
+                             defaultNumWant := vc.DefaultNumWant.toNat, maxScrapeInfoHashes := vc.MaxScrapeInfoHashes.toNat }
+  let lower : Bytes → Bytes := fun k =>
+    if Query.isASCII k then Query.asciiLower k
+    else match lowmap.find? (·.1 == k) with
+      | some (_, some v) => v
+      | _ => [0xff, 0xfe, 0xfd]
+  let m1 := slice pkt 0 4 ++ src
+  let m2 := Bytes.be32 ((now / 1000000000) % 2^32).toNat ++ src
+  let mac : Mac := fun _ msg => if msg == m1 then tag ++ List.replicate 28 0 else if msg == m2 then gtag ++ List.replicate 28 0 else List.replicate 32 0
+  let logic : Logic :=
+    { announce := fun req => .ok { compact := false, complete := req.downloaded % 2^32, incomplete := req.uploaded % 2^32,
+                                    interval := ((req.left % 1000 + 1 : Nat) : Int) * 1000000000, minInterval := 0,
+                                    v4peers := [req.peer], v6peers := [req.peer] },
+      scrape := fun _ => .ok { files := [] } }
+  let r := handleRequest mac lower { key := [], skewNs := skew, opts := opts } logic now pkt src
+  if r.panic then return "PANIC\tpanic"
+  pure (showOut (slice pkt 12 16) r.out ++ "\t" ++ (match r.out with | none => "silent" | some b => if Bytes.toNatBE (b.take 4) == 3 then "reject" else "echo"))
+
 def handle (l : Line) : Option (Except String String) :=
   match l.op with
+  | "udp.echo" => some (opEcho l)
   | "udp.handle" => some (opHandle l)
   | _ => none
 
